@@ -23,6 +23,7 @@ EXPLANATION = ('WIRE: the PSK secret fed to the key schedule of the new epoch (c
                'extractions. GUARD: PSK proposal admission (type/usage, nonce length, duplicates, presence). MUST-PASS: a PSK that '
                'cannot be resolved makes resolution fail (MissingRequiredPsk / OldGroupStateNotFound reach the caller). FAIL-ATOMIC: '
                'the failing get_psk step leaves the member unchanged. "Changing any PSK changes every secret" (value level) is not decided.')
+EXPLANATION += ' FAIL-ATOMIC (restricted): nothing of the group is written when PSK resolution or the confirmation-tag comparison fails. TIERED-LOOKUP: a resumption PSK id resolves to the secret of exactly the epoch it names.'
 ASSUMPTIONS = ['KDF extract / expand are collision resistant']
 
 
